@@ -66,3 +66,15 @@ check("C04",
       "Trusted: z3; abstract measure axioms; sqrt axioms. model.drift() (r-d+omega of the exponential models) is an arbitrary symbol. Outside: n-d "
       "small-jump covariance (nquad/sqrtm), per-cell x^2 oscillation bound.",
       TECH, "DESIGN.md section 3 C04")
+
+check("C03",
+      "Bounded model checking of the real refinement and coupling code on a symbolic coarse grid, an abstract measure / copula and a scheduler-"
+      "controlled coupling uniform: coarse rates (from the real chain code on the un-refined grid) == sum over fine states of fine rate x transfer "
+      "probability, even increments copied, odd ones moved only to adjacent coarse states, transfer probability x rate == mass of the half cell "
+      "(1-d) / sub-cell (copula, every parity class), coarse drift and diffusion coefficient == previous level's, same Brownian increments drive both "
+      "components; transfer probabilities are ratios of masses, proved by cross-multiplied polynomial identities.",
+      "Trusted: z3; abstract measure/copula axioms; the scripted uniform (comparisons record the threshold and return the scheduled outcome; leaf "
+      "measure = difference of consecutive thresholds); n-d global coarse-rate identity follows from the local sub-cell identities by tiling (C01) and "
+      "additivity (C12). Known finding: mixed-parity increments in the copula coupling (see known_findings.json). Outside: 3-d coupling, CouplingSDE "
+      "Euler part (C16).",
+      TECH, "DESIGN.md section 3 C03")
